@@ -74,6 +74,31 @@ def gen(rng, tier):
             a, b = unit(rng, m), unit(rng, m)
             l = rng.choice([0.0, 1.0, rng.rand(), 0.5])
             lines.append("v.interp %s %s %s %s" % ("u" if m == 3 else "q", " ".join(map(fbits, a)), " ".join(map(fbits, b)), fbits(l)))
+        # finite-difference probes of the first distance op (oracle: reported gradient = true derivative)
+        t = lines[1].split()
+        h = 1e-5
+        if t[0] == "v.dist2" and kind != "pe":
+            ty = t[1]
+            if ty in ("s", "p"):
+                off = 2 if ty == "s" else 4
+                a = bits_to_f(t[off])
+                for sgn in (1, -1):
+                    tt = list(t); tt[off] = fbits(a + sgn * h); lines.append(" ".join(tt))
+                meta["fd"] = {"h": h, "v": [1.0], "plus": len(lines) - 1, "minus": len(lines)}
+            else:
+                m = {"u": 3, "q": 4}.get(ty) or int(t[2])
+                off = 2 if ty != "v" else 3
+                a = [bits_to_f(x) for x in t[off:off + m]]
+                v = [rng.gauss() for _ in range(m)]
+                if ty in ("u", "q"):   # tangent direction
+                    d = sum(x * y for x, y in zip(a, v))
+                    v = [y - d * x for x, y in zip(a, v)]
+                for sgn in (1, -1):
+                    tt = list(t)
+                    for i in range(m):
+                        tt[off + i] = fbits(a[i] + sgn * h * v[i])
+                    lines.append(" ".join(tt))
+                meta["fd"] = {"h": h, "v": v, "plus": len(lines) - 1, "minus": len(lines)}
         cases.append({"lines": lines, "meta": meta, "nontrivial": nt})
     return cases
 
@@ -134,10 +159,27 @@ def oracle(case, out):
                 tgt = a if l == 0.0 else b
                 if any(abs(x - y) > 1e-9 for x, y in zip(ip, tgt)):
                     viol.append("interpolation at lambda=%r does not reach the end point" % l)
+    fd = case["meta"].get("fd")
+    if fd:
+        dp = fl(out, fd["plus"], "d2"); dm = fl(out, fd["minus"], "d2"); g = fl(out, 2, "g"); d0 = fl(out, 2, "d2")
+        if dp and dm and g and all(isinstance(x, float) for x in dp + dm + g):
+            num = (dp[0] - dm[0]) / (2 * fd["h"])
+            ana = sum(x * y for x, y in zip(g, fd["v"]))
+            # skip the neighbourhood of the cut locus / coincident points where the distance is not differentiable
+            t = L[1].split()
+            smooth = True
+            if t[1] == "p":
+                P = bits_to_f(t[2]); d = abs(d0[0]) ** 0.5
+                smooth = abs(d - P / 2) > 1e-3 * P
+            if t[1] in ("u", "q"):
+                smooth = 1e-3 < abs(d0[0]) ** 0.5 < (3.14 if t[1] == "u" else 1.57) - 1e-3
+            if smooth and abs(num - ana) > 1e-4 * max(1.0, abs(num), abs(ana)):
+                viol.append("reported gradient . v = %r but the finite-difference derivative of the squared distance along v is %r" % (ana, num))
     # symmetry / invariance on the grouped lines
     kind = case["meta"].get("kind")
-    if kind in ("p", "pe", "u", "q", "qs") and len(L) >= 3:
-        d = [fl(out, i, "d2") for i in range(2, len(L) + 1)]
+    nmain = len(L) - (2 if fd else 0)
+    if kind in ("p", "pe", "u", "q", "qs") and nmain >= 3:
+        d = [fl(out, i, "d2") for i in range(2, nmain + 1)]
         if all(x is not None and isinstance(x[0], float) for x in d):
             base = d[0][0]
             for j, x in enumerate(d[1:], 1):
